@@ -190,6 +190,11 @@ def run(ctx):
         ok = len(st) == 1 and hk and ira.dominates(hk[0][0], st[0]) and "compute_meta_proposal_samples" in src(ira.stmt(st[0]).value)
         guards = [src(e) for e, t in (ira.guards(st[0]) if st else []) if t is True]
         ctx.ob("R-PICKLE", "C12.1", ir, f"`<sampler>.{store}` (None in the pickle unless save_log_q) is recomputed from the re-loaded proposal when it is None", ok and any(g_.endswith(store + " is None") for g_ in guards), f"guards {guards}")
+    from ..rules import samestore
+
+    for site in [x for x in samestore.sites(prog) if x[0] is ir]:
+        ok_, why_ = samestore.check(site)
+        ctx.ob("R-PICKLE", "C12.1", ir, f"on resume the density table of `{site[2].split('.')[-1]}` is recomputed at the samples of that same store", ok_, why_, node=site[1])
     ctx.ob("R-PICKLE", "C12.1", tables.OS_ + ".__getstate__", "log_q is pickled iff save_log_q, else None (never silently dropped)", "log_q" in os_d and ("log_q" in os_a or "log_q" in os_n) and _key_on_every_path(prog.cls(tables.OS_).methods["__getstate__"], "log_q"), f"dropped {sorted(os_d)} nulled {os_n} added {sorted(os_a)}")
     # Model is never taken from the pickle
     for cq in (tables.BASE, tables.INS, tables.PROPOSAL, tables.FP, tables.IFP):
@@ -321,6 +326,7 @@ _INS = "nessai/samplers/importancesampler.py"
 _FPF = "nessai/proposal/flowproposal.py"
 _PB = "nessai/proposal/base.py"
 MUTANTS = [
+    {"id": "resume-table-from-other-store", "file": _INS, "old": "            ) = obj.proposal.compute_meta_proposal_samples(\n                obj.training_samples.samples\n            )", "new": "            ) = obj.proposal.compute_meta_proposal_samples(obj.samples_unit)", "expect": "recomputed at the samples of that same store"},
     {"id": "weights-file-key-not-pickled", "file": _FPF, "old": '        state["weights_file"] = getattr(\n            state.get("flow"), "weights_file", None\n        )\n', "new": "", "expect": "weights_file"},
     {"id": "proposal-not-reattached", "file": _NS, "old": "        else:\n            self.proposal = self._flow_proposal\n\n        if live_points and", "new": "        else:\n            pass\n\n        if live_points and", "expect": "dropped `proposal`"},
     {"id": "model-not-reattached", "file": _PB, "old": '        Resume the proposal with the model\n        """\n        self.model = model\n', "new": '        Resume the proposal with the model\n        """\n        pass\n', "expect": "`model`"},
